@@ -1,4 +1,4 @@
-import TornadoModel.C06.CopyRun
+import TornadoModel.C06.Grammar
 /-!
 C06 — property theorems: HTTP header maps behave as a case-insensitive insertion-ordered multimap.
 Only property theorems and non-vacuity examples live here; helper lemmas are in `Lemmas`, `Norm`, `Refine`.
@@ -74,6 +74,31 @@ theorem get_is_joined_list (ops : List Op) (n v : Str) (h' : Headers)
       simp only [Option.getD_some]
       exact ⟨trivial, w.nonempty _ (mem_of_dget _ _ _ ha), trivial⟩
     | none => simp [hc, ha] at hg
+
+/-- **Line parsing, field line** (grammar stated from the outside: `field-name ":" OWS field-value OWS`, terminated by
+    nothing, LF or CR LF): after any history, parsing such a line is exactly `add(name, value)` — same output, same
+    state.  (`AllWs` = only SP/HTAB; `IsEol e` = `e ∈ {"", "\n", "\r\n"}`.) -/
+theorem field_line_is_add (ops : List Op) (k v a b e : Str) (hk : isToken k = true) (hv : isFieldValue v = true)
+    (ha : AllWs a) (hb : AllWs b) (he : IsEol e) :
+    step (run empty ops).1 (.parseLine ((k ++ cColon :: (a ++ v ++ b)) ++ e)) = step (run empty ops).1 (.add k v) := by
+  simp only [step, parseLine_field_line _ k v a b e hk hv ha hb he]
+
+/-- **Line parsing, continuation line**: after any history, `add(k, v)` followed by a continuation line
+    (`(SP|HTAB)+ text OWS`, terminated by nothing, LF or CR LF) makes `get_list(k)` end in `v + " " + text` (earlier
+    values untouched) and `h[k]` return the comma-join of that list — the combined-value cache does not keep the
+    value from before the fold. -/
+theorem obs_fold_extends_last_value (ops : List Op) (k v a body b e : Str) (hk : isToken k = true)
+    (hv : isFieldValue v = true) (ha : AllWs a) (hane : a ≠ []) (hb : AllWs b) (hbody : isFieldValue body = true)
+    (he : IsEol e) :
+    (run empty (ops ++ [.add k v, .parseLine ((a ++ body ++ b) ++ e), .getList k, .get k])).2
+      = (run empty ops).2 ++ [.unit, .unit, .vals (getList (run empty ops).1 k ++ [v ++ cSp :: body]),
+          .val (joinWith [cComma] (getList (run empty ops).1 k ++ [v ++ cSp :: body]))] := by
+  rw [run_append]
+  simp only [List.append_cancel_left_eq]
+  obtain ⟨h1, ha1, hl1, hg1⟩ := add_ok_shape (run empty ops).1 k v hk hv
+  have hf := parseLine_obs_fold h1 a body b e (normalize k) _ ha hane hb hbody he hl1 hg1
+  simp only [List.append_assoc] at hf
+  simp [run, step, ha1, hf, getList, getItem, dget_dset_same, dget_ddel_same, appendToLast_snoc]
 
 /-- **Present ⇒ deletable**: in every reachable state, a name reported present can be deleted
     (this is the clause the pre-fix code violated: `del` raised `KeyError` from the cache dict). -/
@@ -249,6 +274,12 @@ example : ∃ c, copy (run empty [Op.add [65] [49], Op.get [65], Op.add [97] [50
 /-! non-vacuity of `get_is_joined_list`: a cached two-value read -/
 example : ∃ h', getItem (run empty [Op.add [65] [49], Op.add [97] [50], Op.get [65]]).1 [97] = .ok ([49, 44, 50], h') :=
   ⟨_, rfl⟩
+
+/-! non-vacuity of the line-grammar theorems: `"X-y:\t v w  \r\n"` and the continuation `" \tz \n"` -/
+example : isToken [88, 45, 121] = true ∧ isFieldValue [118, 32, 119] = true ∧ AllWs [9, 32] ∧ AllWs [32, 32] ∧
+    IsEol [cCr, cLf] ∧ isFieldValue [122] = true ∧ IsEol [cLf] := by
+  refine ⟨by decide, by decide, ?_, ?_, Or.inr (Or.inr rfl), by decide, Or.inr (Or.inl rfl)⟩ <;>
+    (intro c hc; simp at hc; rcases hc with rfl | rfl <;> decide)
 
 /-! non-vacuity of `Valid`: a reachable multi-valued, multi-name state satisfies it -/
 example : Valid (run empty [Op.add [65] [49], Op.add [97] [50], Op.set [66, 45, 99] [51, 32, 52]]).1.asList := by
